@@ -133,7 +133,7 @@ STR_POOLS = {
     'bmp': '中文日本語한국어ΩλЖक€→√∞',
     'astral': '😀🚀𝄞𐍈🂡',
 }
-ESCAPES = ['\\n', '\\t', '\\r', '\\\\', '\\x41', '\\x7f', '\\"', "\\'", '\\u00e9', '\\u4e2d', '\\xe9', '\\xff', '\\U0001f600']
+ESCAPES = ['\\n', '\\t', '\\r', '\\\\', '\\0', '\\101', '\\33', '\\7', '\\012', '\\N{BULLET}', '\\a', '\\b', '\\f', '\\v', '\\x41', '\\x7f', '\\"', "\\'", '\\u00e9', '\\u4e2d', '\\xe9', '\\xff', '\\U0001f600']
 
 
 def rand_string(r):
